@@ -8,6 +8,7 @@ import Rmk.Proofs.DecodeSound
 import Rmk.Proofs.DecodeRoundtrip
 import Rmk.Proofs.ConstructRoot
 import Rmk.Proofs.Sizes
+import Rmk.Proofs.DeserWorkBound
 namespace Rmk.C10
 open Rmk
 
@@ -57,6 +58,21 @@ theorem safe (H : Hash) (t : Ty) (hwf : t.wf = true) (b : List UInt8) (v : Val) 
   · rw [← hser]; exact hbd.1
   · rw [← hser]; exact hbd.2
   · exact DecodeRoundtrip.decode_bytes t v hwf hwt (by rw [hser]; exact hb)
+
+/-- C09, "decoding terminates": the number of `deserialize` calls (nested ones included) that decoding makes —
+    on ANY stream, with any scope, whether it succeeds or raises — is bounded by a linear function of the scope
+    whose two constants depend on the type only (`DeserWorkBound.W`, `DeserWorkBound.A`: computable, printed by
+    the driver). `Impl.deserWork` follows `Impl.deser` call by call; the harness counts the library's real
+    `deserialize` calls on every generated input and compares. -/
+theorem work_linear (t : Ty) (hwf : t.wf = true) (s : List UInt8) (scope : Nat) :
+    1 ≤ Impl.deserWork t s scope ∧
+    Impl.deserWork t s scope ≤ DeserWorkBound.W t * (scope + 1) + DeserWorkBound.A t :=
+  ⟨DeserWorkBound.deserWork_pos t s scope, DeserWorkBound.deserWork_le t hwf s scope⟩
+
+/-! Non-vacuity of `work_linear`: a list of containers holding a list; a valid encoding costs 9 calls, a garbage
+    offset 1, the bound at scope 20 is 22 -/
+private def tw : Ty := .list (.container [.uint 1, .list (.uint 1) 4]) 3
+example : tw.wf = true ∧ DeserWorkBound.W tw * (20 + 1) + DeserWorkBound.A tw = 22 := by decide
 
 /-! Non-vacuity: a near-valid string (gap before the first variable part) is rejected, the valid one accepted -/
 private def t0 : Ty := .container [.list (.uint 1) 10]
